@@ -78,8 +78,8 @@ _claim('C13',
        "boolean normal forms + path conditions of the labelling store + argument binding")
 _claim('C18',
        "C18.R1 the default configuration is reconstructed symbolically from get_config and compared with variant "
-       "formals, stage formals, explicit keywords at ** sites and fallback literals; C18.R2 accessor arity tables of "
-       "get/set/del agree with nesting depth; C18.R3 abstract YAML document shape of each writer vs. its reader; "
+       "formals, stage formals, explicit keywords at ** sites and fallback literals; C18.R2 __getitem__/__setitem__/__delitem__ evaluated on the literal keys 'k0', 'k0/k1', 'k0/k1/k2' (nesting depth = number of components, the value stored is the value given) and 'k0/k1/k2/k3' (rejected), with the key transform inlined; "
+       "C18.R3 abstract YAML document shape of each writer vs. its reader; "
        "(payload = own type + own store, get_func binds the own variant); C18.R4 export does not mutate the live store (alias/mutation analysis); C18.R6 YAML-safe conversion table and list-like treatment of sequence-valued options.",
        "behaviour of the callable returned by get_func beyond keyword binding.",
        "symbolic reconstruction of the config term + sibling comparison + document-shape substitution + mutation analysis")
@@ -124,7 +124,7 @@ _claim('C09',
 _claim('C10',
        "C10.R1 class-by-class evaluation of row index, keep filter and value of hilberthuang and of the loop of "
        "hilberthuang_1d over the digitize index classes (below / in(k) / at-last-edge / above / nan) for E = 2,3,5; "
-       "C10.R2 sibling agreement of the two maps; C10.R3 energy exponent, dense = toarray(sparse); C10.R4 bin definition; "
+       "C10.R2 sibling agreement of the two maps; C10.R3 energy exponent, dense = toarray(sparse); C10.R4 bin definition (edges by scale; centres interpreted on five exact rational edge vectors as the midpoints of consecutive edges); "
        "C10.R5 dimension checks present, L1 library attributes resolve; C10.R6 ensure_2d contract (shape classes, values untouched). Recognisably wrong constructions are reported as violations, not as analysis errors: swapped np.digitize arguments, COO coordinates taken from the wrong vector, a keep-filter that tests the time coordinate or input values, reductions over the wrong axis, impossible reshapes, a time coordinate that the small array model shows not to be the sample index, wrong reducers / exponents, mis-spaced or rejected scales, 1-D allocation and IMF loop.",
        "floating-point summation order of duplicate sparse entries.",
        "finite abstract domain of digitize index classes with elementwise transfer functions")
@@ -143,7 +143,7 @@ _claim('C14',
        "term decoding with inlined label lookups + digitize index classes")
 _claim('C15',
        "C15.R1 comparator table by folding the parser's path conditions for 6 operators x 3 literal prefixes; C15.R2 "
-       "conjunction with the metric on the left; C15.R3 subset / chain counters; C15.R4 every metric store is guarded or "
+       "conjunction with the metric on the left; C15.R3 get_subset_vector and get_chain_vector evaluated on every boolean selection of up to 6 (thorough 7) cycles given as literal lists, the closed result terms interpreted (-1 / running counter; one entry per selected cycle, chains are maximal runs), with the counter / gap relations of the loops as the fallback reading; C15.R4 every metric store is guarded or "
        "of cycle-level provenance; C15.R5 cache precondition (all-cycles unmasked vector, gap-free by C12.R1) and the "
        "cache's own boundaries; metric values are not modified in place; C15.R6 recomputation on every pick; C15.R7 the label route and the slice-cache route delimit the augmented cycle identically (sibling agreement by substitution); C15.R8 possibly-None extents never index the values unguarded; C15.R9 per mode x cache state the stored metric is the matching support routine on (vals, own labels or the cache known to be present, func), chain metrics are the per-chain statistic on the own vectors projected onto cycles with NaN -> -1 before an integer cast, chain_ind / chain_position number chains and members from 0; C15.R10 every attribute a method reads is bound on every constructor path before the first method call needing it; C15.R11 the tabular export is built from the metric store and drops exactly the rows not matching the conditions in force; C15.R12 on the slice-cache route and the augmented label route every cycle's slot is written once on every path with func of exactly that cycle's values, NaN exactly without extent.",
        "equality of arbitrary user functions under cache on/off; the full operation-history quantifier beyond 'each "
